@@ -277,7 +277,7 @@ write_header(struct archive_write *a, struct archive_entry *entry)
 {
 	struct cpio *cpio;
 	const char *p, *path;
-	int pathlength, ret, ret_final;
+	int pathlength, ret, ret_final, overflow;
 	int64_t	ino;
 	char h[76];
 	struct archive_string_conv *sconv;
@@ -324,7 +324,8 @@ write_header(struct archive_write *a, struct archive_entry *entry)
 
 	memset(h, 0, sizeof(h));
 	format_octal(070707, h + c_magic_offset, c_magic_size);
-	format_octal(archive_entry_dev(entry), h + c_dev_offset, c_dev_size);
+	overflow = format_octal(archive_entry_dev(entry),
+	    h + c_dev_offset, c_dev_size);
 
 	ino = synthesize_ino_value(cpio, entry);
 	if (ino < 0) {
@@ -340,18 +341,35 @@ write_header(struct archive_write *a, struct archive_entry *entry)
 	}
 	format_octal(ino & 0777777, h + c_ino_offset, c_ino_size);
 
-	/* TODO: Set ret_final to ARCHIVE_WARN if any of these overflow. */
-	format_octal(archive_entry_mode(entry), h + c_mode_offset, c_mode_size);
-	format_octal(archive_entry_uid(entry), h + c_uid_offset, c_uid_size);
-	format_octal(archive_entry_gid(entry), h + c_gid_offset, c_gid_size);
-	format_octal(archive_entry_nlink(entry), h + c_nlink_offset, c_nlink_size);
+	overflow |= format_octal(archive_entry_mode(entry),
+	    h + c_mode_offset, c_mode_size);
+	overflow |= format_octal(archive_entry_uid(entry),
+	    h + c_uid_offset, c_uid_size);
+	overflow |= format_octal(archive_entry_gid(entry),
+	    h + c_gid_offset, c_gid_size);
+	overflow |= format_octal(archive_entry_nlink(entry),
+	    h + c_nlink_offset, c_nlink_size);
 	if (archive_entry_filetype(entry) == AE_IFBLK
 	    || archive_entry_filetype(entry) == AE_IFCHR)
-	    format_octal(archive_entry_rdev(entry), h + c_rdev_offset, c_rdev_size);
+	    overflow |= format_octal(archive_entry_rdev(entry),
+		h + c_rdev_offset, c_rdev_size);
 	else
 	    format_octal(0, h + c_rdev_offset, c_rdev_size);
-	format_octal(archive_entry_mtime(entry), h + c_mtime_offset, c_mtime_size);
-	format_octal(pathlength, h + c_namesize_offset, c_namesize_size);
+	overflow |= format_octal(archive_entry_mtime(entry),
+	    h + c_mtime_offset, c_mtime_size);
+	if (format_octal(pathlength, h + c_namesize_offset, c_namesize_size)) {
+		/* A saturated name length would desynchronize readers. */
+		archive_set_error(&a->archive, ENAMETOOLONG,
+		    "Pathname too long for cpio format");
+		ret_final = ARCHIVE_FAILED;
+		goto exit_write_header;
+	}
+	if (overflow) {
+		/* The field holds the largest value the format allows. */
+		archive_set_error(&a->archive, ERANGE,
+		    "Numeric value out of range for cpio format");
+		ret_final = ARCHIVE_WARN;
+	}
 
 	/* Non-regular files don't store bodies. */
 	if (archive_entry_filetype(entry) != AE_IFREG)
